@@ -69,7 +69,9 @@ CLAIMS = {
        "locations expiring with 403, 401 challenge) with the (url, header) pair guarded by urlMu. TLC checks OnlyLatestPullOfExactRef, ServerAddressMustMatch, GoneAfterRemove, "
        "FirstNonEmptyWins, ConfinedHeaders, ConfinedAuth exhaustively with one negative control per guard. Binding: every edge of the generation graphs is replayed on the real "
        "code - request sequences against cri.NewCRIKeychain with a stub backend; interleavings forced on real goroutines through verifhook gates around the read of f.url and a "
-       "blocking in-memory registry - plus seeded random sequences and free-running -race executions; every http.Request (host, headers, Authorization) and every credential answer "
+       "blocking in-memory registry - plus seeded random sequences and free-running -race executions; Hosts.tla models RegistryHostsFromConfig (mirrors with/without headers + the implicit "
+       "origin) and the fall-through of newHTTPFetcher over that list (HostHeadersOwn, SentHeadersOwn; every config run through the real code against loopback servers recording each request); "
+       "Fetcher.tla also models a registry that answers 403 once so a directly resolved fetcher can refresh into a redirect; every http.Request (host, headers, Authorization) and every credential answer "
        "is validated by TLC against the spec and the formulas are evaluated by the monitor. The torn read of (url, header) was reproduced on the pinned code and fixed (8be7b8b).",
   design_ref="DESIGN.md 3 (C18), 2.4, 2.5, 7 item 6",
   note="Bounded: 2 refs, <=3 pulls, 12 auth forms; 2 workers x <=2 operations, <=3 personality changes, 2 locations, one registry host. Creds requests are sequential. The 400 "
